@@ -4,6 +4,7 @@ from ir import Agg, Const
 import paths as P
 import decoder_rules as DR
 import termeval
+from ir import strip_casts
 import rules
 
 
@@ -580,6 +581,36 @@ def run(ctx, chk):
     okv = not bad and sh.ret_type == "void"
     chk.ob("C16.reach", "the decoder's string callback never consults the unicode status", okv, "%s:%d" % (cb.file, cb.line),
            fn=cb.name, detail="" if okv else "calls %s / set_handle returns a value" % bad)
+    # ---- who may write the count
+    chk.rule("C16.count-writers", "the stored code point count is only ever the counter's verdict on the bytes being attached, or 0: every store to "
+             "the codepoint_count field of a string's metadata writes 0, the result of _cbor_unicode_codepoint_count, or a merge of the two "
+             "(a count copied from another item, or kept from before the payload was edited in place, is not the count of these bytes)")
+    from ir import Inst as _I, Const as _C
+    cpo = prog.field_offset("_cbor_string_metadata", "codepoint_count")
+    nw = 0
+
+    def counter_value(v, depth=0):
+        v = strip_casts(v, ("bitcast", "zext", "sext", "trunc"))
+        if isinstance(v, _C):
+            return v.v == 0
+        if isinstance(v, _I) and v.op == "call":
+            return v.callee == "_cbor_unicode_codepoint_count"
+        if isinstance(v, _I) and v.op in ("phi", "select") and depth < 4:
+            ops_ = v.operands if v.op == "phi" else v.operands[1:]
+            return all(counter_value(x, depth + 1) for x in ops_)
+        return False
+    for g_ in prog.lib_funcs():
+        for i_ in g_.all_insts():
+            if i_.op != "store":
+                continue
+            a_ = strip_casts(i_.operands[1])
+            if isinstance(a_, _I) and a_.op == "getelementptr" and a_.d.get("src_type") == "%struct._cbor_string_metadata" and a_.d.get("const_offset") == cpo:
+                nw += 1
+                okw = counter_value(i_.operands[0])
+                chk.ob("C16.count-writers", "%s: the value stored to codepoint_count at line %d is 0 or the counter's result" % (g_.name, i_.line), okw,
+                       i_.loc(), fn=g_.name, key="cpw:%s:%d" % (g_.name, rules._ordinal_of(g_, i_)),
+                       detail="" if okw else "stores %r: a count that was not computed from the bytes this item holds" % (i_.operands[0],))
+    chk.floor("C16.count-writers", "stores to the codepoint_count field", nw, 1)
     chk.rule("C16.getter", "cbor_string_codepoint_count and cbor_string_length report the stored values as they are: every path returns "
              "the item's field (no second opinion in the accessor; shared field-accessor rule)")
     rules.check_field_getters(chk, "C16.getter", prog, eff, names=("cbor_string_codepoint_count", "cbor_string_length", "cbor_string_handle"))
